@@ -105,12 +105,42 @@ def apply(F, t):
     raise ValueError(name)
 
 
-def apply_cli(fc, t):
+def _cli_tokens(t, ctx):
+    from vlib import catalog
+    name = t['name']
+    if name in BLOCK:
+        return [name, t['k']]
+    if name in LINEAR:
+        return None if t['K'] < 1 else [name, t['k'], t['K']]
+    if name in ('ite', 'flip'):
+        return [name]
+    if name == 'lift':
+        return [name, t['k']]
+    b = t['B']
+    if b['L'] < 1 or b['R'] < 1:
+        return None
+    p2 = ctx.path('matrix')
+    catalog.write_matrix(p2, b['L'], b['R'], b['edges'])
+    return [name, 'matrix', p2]
+
+
+def apply_cli(fc, t, t0=None):
     """the same transformation through `cnfgen dimacs <file> -T ...`; None when the command line cannot express it"""
     from vlib import cli, catalog
     name = t['name']
-    if fc['kind'] != 'hand':
+    if fc['kind'] != 'hand' or (t0 is not None and fc.get('names')):
         return None
+    if t0 is not None:
+        with catalog.Ctx() as ctx:
+            a, b = _cli_tokens(t0, ctx), _cli_tokens(t, ctx)
+            if a is None or b is None:
+                return None
+            path = ctx.path('cnf')
+            with open(path, 'w') as fh:
+                fh.write("p cnf {} {}\n".format(fc['n'], len(fc['clauses'])))
+                for c in fc['clauses']:
+                    fh.write(" ".join(map(str, list(c) + [0])) + "\n")
+            return cli.build('cnfgen', ['-q', 'dimacs', path, '-T'] + [str(x) for x in a] + ['-T'] + [str(x) for x in b])
     with catalog.Ctx() as ctx:
         if name in BLOCK:
             toks = [name, t['k']]
@@ -187,9 +217,16 @@ def gadget(N, name, t, masks):
 def run_case(case):
     fc, t = case['F'], case['T']
     F = base_formula(fc)
+    t0 = case.get('first')
+    if t0 is not None:
+        # the input is itself the result of a transformation (judged on its own by the cases without 'first'):
+        # its variable names are the ones the transformations generate
+        F = apply(F, t0)
+        if F.number_of_variables() * max(1, expected_vars(1, t)) > 60 or len(F) > 400:
+            return Outcome(nontrivial=False, labels=['too-large'])
     n = F.number_of_variables()
     before = [list(c) for c in F]
-    G = apply_cli(fc, t) if case.get('via') == 'cli' else None
+    G = apply_cli(fc, t, t0) if case.get('via') == 'cli' else None
     through_tool = G is not None
     if G is None:
         G = apply(F, t)
@@ -251,6 +288,13 @@ def run_case(case):
         labels.append('repeated-variable-names')
     if t.get('call') == 'keyword' and not through_tool:
         labels.append('keyword-call')
+    if t0 is not None:
+        labels.append('input-is-a-transformed-formula')
+        labels.append('twice:' + name if t0 == {k: v for k, v in t.items() if k != 'call'} else 'after:' + t0['name'])
+        if through_tool and t0 == {k: v for k, v in t.items() if k != 'call'}:
+            labels.append('same-T-option-twice')
+    if any(isinstance(x, str) and x[:3] in ('X_{', 'Y_{', 'Z_{') for x in (fc.get('names') or [])):
+        labels.append('names-like-generated-ones')
     if through_tool:
         labels.append('through-cnfgen')
         if not G.number_of_clauses():
@@ -351,7 +395,7 @@ def strat_formula(draw, maxn, maxw=3):
     clauses = draw(st.lists(st.lists(lit, max_size=maxw), max_size=4))
     fc = {'kind': 'hand', 'n': n, 'clauses': clauses}
     if draw(st.integers(0, 3)) == 0:
-        fc['names'] = draw(st.lists(st.sampled_from([None, 'p', 'p', 'x1', 'x2', 'x_{1}', 'y', '']), min_size=n, max_size=n))
+        fc['names'] = draw(st.lists(st.sampled_from([None, 'p', 'p', 'x1', 'x2', 'x_{1}', 'y', '', 'Y_{1}', 'X_{1}', 'Y_{1,1}', 'X_{2,1}', 'Z_{1}', '{Y_{1}}']), min_size=n, max_size=n))
     return fc
 
 
@@ -398,11 +442,29 @@ def strat_case(draw):
         g['edges'] = keep
         t['B'] = g
     t['call'] = draw(st.sampled_from(['positional', 'positional', 'keyword']))
-    return {'F': F, 'T': t, 'via': draw(st.sampled_from(['lib', 'lib', 'cli']))}
+    case = {'F': F, 'T': t, 'via': draw(st.sampled_from(['lib', 'lib', 'cli']))}
+    if name not in ('xorcomp', 'majcomp') and F['kind'] == 'hand' and F['n'] <= 2 and draw(st.integers(0, 2)) == 0:
+        # a first step: the same transformation once more (half of the time) or a small other one
+        same = {k: v for k, v in t.items() if k != 'call'}
+        small = [{'name': 'lift', 'k': 1}, {'name': 'lift', 'k': 2}, {'name': 'xor', 'k': 2}, {'name': 'or', 'k': 2}, {'name': 'flip'}, {'name': 'ite'}]
+        case['first'] = same if (draw(st.booleans()) and per <= 3) else draw(st.sampled_from(small))
+        F['clauses'] = [c[:2] for c in F['clauses'][:3]]
+    return case
 
 
 def enum_cases(tier):
     """Small complete slice: every transformation on every 1-2 variable formula with <=2 clauses of width<=2."""
+    small = [{'name': 'lift', 'k': 1}, {'name': 'lift', 'k': 2}, {'name': 'xor', 'k': 2}, {'name': 'or', 'k': 2}, {'name': 'maj', 'k': 3},
+             {'name': 'eq', 'k': 2}, {'name': 'one', 'k': 2}, {'name': 'exact', 'k': 2, 'K': 1}, {'name': 'atleast', 'k': 2, 'K': 1}, {'name': 'flip'}, {'name': 'ite'}]
+    for fi, F in enumerate([{'kind': 'hand', 'n': 1, 'clauses': [[1]]}, {'kind': 'hand', 'n': 2, 'clauses': [[1, -2], [2]]},
+                            {'kind': 'hand', 'n': 1, 'clauses': [[-1]], 'names': ['Y_{1}']}, {'kind': 'hand', 'n': 2, 'clauses': [[1, 2]], 'names': ['X_{1}', 'Y_{1}']}]):
+        for i, a in enumerate(small):
+            for j, b in enumerate(small):
+                if tier == 'quick' and a != b and (i + j + fi) % 3:
+                    continue
+                yield {'F': F, 'T': b, 'first': a}
+                if not F.get('names'):
+                    yield {'F': F, 'T': b, 'first': a, 'via': 'cli'}
     forms = []
     for n in (1, 2):
         lits = [l for v in range(1, n + 1) for l in (v, -v)]
@@ -438,10 +500,11 @@ def enum_cases(tier):
 
 SUBCHECKS = [
     SubCheck('compose', run_case, strategy=strat_case, enumerate_cases=enum_cases, quick=1200, thorough=60000,
-             rule="CNFs with 1..4 variables (a quarter with caller-chosen labels that repeat or equal another variable's default name), 0..4 clauses of width 0..3 (0..6 for arity<=2) (empty clause, unused variables, repeated/opposite literals) and small php/op/Tseitin instances x every exported substitution (k in 1..4, thresholds 0..k+1; positional or with the documented parameter names as keywords; a third of the cases through `cnfgen dimacs <file> -T ...` on a harness-written file, formulas without clauses included), if-then-else, lifting k<=3, flip, xor/maj compression with arbitrary bipartite graphs; complete slice: all formulas on <=2 variables with <=2 clauses x all transformations; oracle: tt(G) == F evaluated on the gadget-induced assignment for every assignment (lifting: and exactly one selector), variable count as documented; non-trivial: a non-empty clause and a non-constant gadget",
+             rule="CNFs with 1..4 variables (a quarter with caller-chosen labels that repeat or equal another variable's default name), 0..4 clauses of width 0..3 (0..6 for arity<=2) (empty clause, unused variables, repeated/opposite literals) and small php/op/Tseitin instances x every exported substitution (k in 1..4, thresholds 0..k+1; positional or with the documented parameter names as keywords; a third of the cases through `cnfgen dimacs <file> -T ...` on a harness-written file, formulas without clauses included), if-then-else, lifting k<=3, flip, xor/maj compression with arbitrary bipartite graphs; a third of the small cases and an enumerated grid (11 x 11 small transformations on four tiny formulas, library and `-T a -T b`) take as input the result of a first transformation - the same one applied twice included - so that the names met are the generated ones (caller-chosen labels also imitate them: X_{1}, Y_{1}, Z_{1}); complete slice: all formulas on <=2 variables with <=2 clauses x all transformations; oracle: tt(G) == F evaluated on the gadget-induced assignment for every assignment (lifting: and exactly one selector), variable count as documented; non-trivial: a non-empty clause and a non-constant gadget",
              required_labels=BLOCK + LINEAR + ['ite', 'lift', 'flip', 'xorcomp', 'majcomp', 'empty-clause',
                                               'unused-variable', 'opposite-literals', 'threshold-at-boundary',
-                                              'variable-without-neighbours', 'php', 'op', 'through-cnfgen', 'through-cnfgen-no-clauses', 'keyword-call', 'repeated-variable-names']),
+                                              'variable-without-neighbours', 'php', 'op', 'through-cnfgen', 'through-cnfgen-no-clauses', 'keyword-call', 'repeated-variable-names',
+                                              'input-is-a-transformed-formula', 'twice:lift', 'twice:xor', 'twice:flip', 'same-T-option-twice', 'names-like-generated-ones']),
     SubCheck('wide', run_case, enumerate_cases=enum_wide,
              rule="gadgets of arity 9..14 (xor), 9..33 (or, all-equal, not-all-equal, exactly-one), 7..10 (majority), 9..16 (threshold substitutions, constants near both ends) and xor/maj compression with left degree 9..11, on formulas with 1..3 variables; oracle: as in 'compose', evaluated on 300 sampled assignments whose per-block counts sit around the gadget's switching points (bit-parallel on the sample); non-trivial: as in 'compose'",
              required_labels=['arity>=9', 'xor', 'xorcomp', 'maj']),
